@@ -40,6 +40,9 @@ type Ctl struct {
 	Events, ScanStarts                                      int
 	// abstract schema of the tables (for Open lines)
 	Abs map[string]TableAbs
+	// HoldScan[table]: park the next scan of the table right after it has taken
+	// its file store and memstore copy (one shot)
+	HoldScan map[string]bool
 	// extra callback on every hook (fault injection, crash images)
 	OnHook func(ev string, table string)
 }
@@ -71,6 +74,7 @@ func (c *Ctl) ResetScenario() {
 	c.offIdx = map[[2]int64]int{}
 	c.sigs = map[string][]int{}
 	c.holdStep = map[string]bool{}
+	c.HoldScan = map[string]bool{}
 	c.ResetIncarnation()
 }
 
@@ -213,6 +217,11 @@ func (c *Ctl) Hook(ev string, kv ...interface{}) {
 	case "rs.fields":
 		c.FieldsSet[table]++
 		c.emit(map[string]interface{}{"a": "RSFields", "t": table})
+	case "iter.copied":
+		if c.HoldScan[table] {
+			c.HoldScan[table] = false
+			c.park(table, "scan", ev, 0, 0)
+		}
 	case "iter.start":
 		c.ScanStarts++
 		c.emit(map[string]interface{}{"a": "QueryStart", "t": table, "file": kv[1], "mem": kv[2]})
